@@ -1,4 +1,5 @@
 """C08 - malformed peer input fails cleanly, promptly, within bounded memory."""
+import os
 import resource
 import sys
 import tracemalloc
@@ -40,7 +41,8 @@ WATCHDOG = {"quick": 900, "thorough": 5400}
 
 QUICK_SC = ["ssl3-rsa", "ssl3-ecdhe_rsa-clientauth", "tls10-dhe_rsa", "tls11-ecdhe_ecdsa", "tls12-rsa",
             "tls12-ecdhe_rsa-clientauth", "tls12-dhe_dsa", "tls12-srp_rsa",
-            "tls12-dh_anon", "tls12-resume-ticket", "tls12-ecdhe_rsa-npn",
+            "tls12-dh_anon", "tls12-resume-ticket", "tls11-resume-id",
+            "tls12-ecdhe_rsa-npn",
             "tls13-rsa", "tls13-hrr", "tls13-psk_dhe", "tls13-resume-ticket",
             "tls13-clientauth", "tls13-alpn-tickets", "default-default"]
 
@@ -163,13 +165,18 @@ class Adversary(object):
         conn._queue_message = _queue_message
 
 
-def adversary_script(p, role):
+def adversary_script(p, role, post=None, holder=None):
     """post-handshake control traffic issued by the adversary (its messages
     pass through the mutator too) and a data exchange"""
     adv = p.c if role == "client" else p.s
     vic = p.s if role == "client" else p.c
 
     def adv_prog():
+        if post is not None:
+            # a record-level attack on the established connection
+            holder["adv"].applied = True
+            for r in post(adv, adv._sendMsg):
+                yield r
         yield from drive.awrite(adv, b"adv-data-1" * 4)
         if adv.version == (3, 4):
             for r in adv.send_keyupdate_request(
@@ -203,7 +210,7 @@ def adversary_script(p, role):
 
 def run_one(sc, label, role, target=None, new=None, pre_inject=None,
             budget=None, trace_mem=False, link_inject=None,
-            close_socket=True):
+            close_socket=True, post=None):
     """role = who is the adversary. returns (R, adversary, work, peak)"""
     holder = {}
 
@@ -227,8 +234,9 @@ def run_one(sc, label, role, target=None, new=None, pre_inject=None,
     tweak(p, fl)
     R = scn.Result()
     R.p = p
+    R.fl = fl
     R.c_hs = R.s_hs = False
-    advp, vicp = adversary_script(p, role)
+    advp, vicp = adversary_script(p, role, post, holder)
 
     def cprog():
         yield from fl.client_gen(p.c)
@@ -287,7 +295,8 @@ def plan(ctx, sc, role, label):
                     ops += mut.der_tree_ops(raw, rng, full=not ctx.quick)
             if ctx.quick:
                 # sample operators but always keep the bombs
-                always = ("zbomb", "ext_u16=", "psk_", "dertree_empty:bitstr",
+                always = ("zbomb", "ext_u16=", "psk_", "sni:", "dertree_oid",
+                          "dertree_empty:bitstr",
                           "dertree_empty:octstr", "dertree_trunc1:bitstr",
                           "ext_empty:51", "ext_empty:43", "ext_empty:10",
                           "ext_empty:13", "ext_empty:45", "ext_empty:41",
@@ -337,6 +346,12 @@ def make_cases(ctx):
                         continue
                     yield "%s-%s-rec-%s-%d" % (name, role, atk, at), dict(
                         sc=name, role=role, label=label, atk=atk, at=at)
+            # the same on the established connection
+            for atk in ("garbage_protected", "len_ffff", "unknown_type",
+                        "oversize_plain", "empty_alert", "alert_3byte",
+                        "ssl2_garbage", "fatal_alert"):
+                yield "%s-%s-rec-%s-post" % (name, role, atk), dict(
+                    sc=name, role=role, label=label, atk=atk, at="post")
 
 
 FLOOD = [500]
@@ -369,6 +384,8 @@ def record_attack(atk, rng):
                 yield r
         elif atk == "ssl2_garbage":
             raw(b"\x80\x20" + b"\x01" * 32)
+        elif atk == "garbage_protected":
+            raw(wire.record(23, ver, bytes(range(7, 7 + 80))))
         elif atk == "alert_1byte":
             for r in osend(Message(21, bytearray(b"\x01"))):
                 yield r
@@ -491,6 +508,22 @@ def judge(ctx, key, W, R, adv, role, work, budget, peak, sent_bytes):
                            hs_done=(R.s_hs if vrole == "server" else
                                     R.c_hs)), W,
                       "session still resumable after %r" % (e,))
+    cache = getattr(getattr(R, "fl", None), "session_cache", None)
+    if vrole == "server" and cache is not None and sess is not None and \
+            sess.sessionID and not isinstance(e, E.TLSRemoteAlert):
+        # the connection had adopted a session of the server's cache: what
+        # the cache hands out for that ID must be dead as well
+        try:
+            ent = cache[bytearray(sess.sessionID)]
+            alive = ent is not None and ent.valid()
+        except KeyError:
+            alive = False
+        ctx.count("cache_entry_checked_after_failure")
+        if alive:
+            ctx.violation(dict(key, clause="resumable_after_failure",
+                               where="session_cache", exc=cls), W,
+                          "the SessionCache still serves the session of a "
+                          "connection that failed with %r" % (e,))
     # (e) self-diagnosed protocol violation => fatal alert first
     if cls == "local_alert":
         recs = p.link.recs(vdir)
@@ -512,6 +545,115 @@ def judge(ctx, key, W, R, adv, role, work, budget, peak, sent_bytes):
     return "raw:" + type(e).__name__
 
 
+def in_child(fn, cpu_limit=25.0, wall_limit=400.0):
+    """run fn() in a forked child; the parent watches the child's *CPU*
+    time (a loop inside C code - regular expression, big-number operation -
+    holds the GIL and is invisible to the Python call meter and to any
+    in-process watchdog).  -> ("ok", result) | ("cpu", seconds) |
+    ("wall", seconds) | ("died", status)"""
+    import json as _json
+    import signal
+    import time as _time
+    r, w = os.pipe()
+    pid = os.fork()
+    if pid == 0:
+        try:
+            os.close(r)
+            try:
+                out = fn()
+            except BaseException as e:   # noqa
+                out = {"child_exc": repr(e)[:300]}
+            os.write(w, _json.dumps(out).encode()[:60000])
+        finally:
+            os._exit(0)
+    os.close(w)
+    tck = os.sysconf("SC_CLK_TCK")
+    t0 = _time.monotonic()
+    verdict = None
+    while True:
+        done, status = os.waitpid(pid, os.WNOHANG)
+        if done:
+            break
+        try:
+            with open("/proc/%d/stat" % pid) as f:
+                fields = f.read().rsplit(")", 1)[1].split()
+            cpu = (int(fields[11]) + int(fields[12])) / float(tck)
+        except Exception:   # noqa
+            cpu = 0.0
+        if cpu > cpu_limit:
+            verdict = ("cpu", cpu)
+        elif _time.monotonic() - t0 > wall_limit:
+            verdict = ("wall", cpu)
+        if verdict:
+            os.kill(pid, signal.SIGKILL)
+            os.waitpid(pid, 0)
+            os.close(r)
+            return verdict
+        _time.sleep(0.02)
+    data = b""
+    while True:
+        chunk = os.read(r, 65536)
+        if not chunk:
+            break
+        data += chunk
+    os.close(r)
+    if not data:
+        return ("died", status)
+    return ("ok", _json.loads(data.decode()))
+
+
+def run_guarded(ctx, cid, P, sc, role, fam, vrole, name, newb, i, t, budget,
+                bwork):
+    """mutations whose cost could be inside C code: judged in a child under
+    a CPU-time limit far above the honest handshake (tens of milliseconds)"""
+    def job():
+        R, adv, work, peak = run_one(sc, P["label"], role, target=i,
+                                     new=newb, budget=budget)
+        vt = R.ts if role == "client" else R.tc
+        vic = R.p.s if role == "client" else R.p.c
+        return {"applied": adv.applied, "status": vt.status,
+                "exc": type(vt.exc).__name__ if vt.exc else None,
+                "cls": mon.classify_exc(vt.exc) if vt.exc else None,
+                "detail": repr(vt.exc)[:200], "work": work,
+                "frame": vt.frame() if vt.exc else None,
+                "outcome": [str(outcome(R.tc)), str(outcome(R.ts))]}
+    how, res = in_child(job)
+    ctx.ev()
+    ctx.count("guarded_mutations")
+    opclass = name.split(":")[0]
+    key = {"victim": vrole, "fam": fam, "op": opclass,
+           "msg": wire.HS.get(t, str(t))}
+    W = {"case": cid, "scenario": sc.name, "msg_index": i, "operator": name,
+         "mutant": newb[:300], "child": [how, res if how != "ok" else None]}
+    if how == "cpu":
+        ctx.violation(dict(key, clause="work_unbounded", measure="cpu_time",
+                           shape=name.split(":", 1)[1]), W,
+                      "victim used more than %.0f s of CPU on a %d-byte "
+                      "message (honest handshake: %d Python calls)" % (
+                          res, len(newb), bwork))
+        out = "cpu"
+    elif how != "ok" or "child_exc" in res:
+        ctx.inconc("guarded case %s did not finish: %s %r" % (cid, how, res))
+        return
+    else:
+        W["outcome"] = res["outcome"]
+        if not res["applied"]:
+            ctx.count("not_applied")
+            return
+        out = res["status"] if not res["exc"] else res["cls"]
+        if res["status"] == "budget" or res["exc"] == "WorkBudget":
+            ctx.violation(dict(key, clause="work_unbounded"), W,
+                          "victim exceeded the logical work budget")
+        elif res["exc"] and res["cls"].startswith("undocumented"):
+            ctx.violation(dict(key, clause="undocumented_exception",
+                               exc=res["exc"], frame=res["frame"]), W,
+                          res["detail"])
+    ctx.count("mutations")
+    ctx.cell("cell", "%s|%s|%s|%s|%s" % (sc.name, vrole, wire.HS.get(t, t),
+                                        name, out))
+    ctx.cell("opclass", opclass)
+
+
 def run_case(ctx, cid, P):
     sc = flavours.BY_NAME[P["sc"]]
     role = P["role"]
@@ -531,8 +673,12 @@ def run_case(ctx, cid, P):
     close_socket = ctx.rng.random() < 0.6
     if "atk" in P:
         pre = record_attack(P["atk"], ctx.rng)
-        R, adv, work, peak = run_one(sc, P["label"], role, target=P["at"],
-                                     pre_inject=pre, budget=budget,
+        post = P["at"] == "post"
+        R, adv, work, peak = run_one(sc, P["label"], role,
+                                     target=None if post else P["at"],
+                                     pre_inject=None if post else pre,
+                                     post=pre if post else None,
+                                     budget=budget,
                                      close_socket=close_socket,
                                      trace_mem=P["atk"] in (
                                          "len_ffff", "oversize_plain",
@@ -558,6 +704,9 @@ def run_case(ctx, cid, P):
     if newb is None or name != P["opname"]:
         ctx.inconc("plan/replay mismatch in %s" % cid)
         return
+    if name.startswith("sni:"):
+        return run_guarded(ctx, cid, P, sc, role, fam, vrole, name, newb, i,
+                           t, budget, bwork)
     bomb = name.startswith("zbomb") or name in ("hs_len_max", "lf_lenmax",
                                                 "hs_len_64k")
     R, adv, work, peak = run_one(sc, P["label"], role, target=i, new=newb,
@@ -606,6 +755,12 @@ def finalize(m, tier):
         out.append("fewer than 500 mutation runs")
     if c.get("record_attacks", 0) < 50:
         out.append("fewer than 50 record-level attacks")
+    if c.get("guarded_mutations", 0) < 20:
+        out.append("fewer than 20 hostile server names judged under the "
+                   "CPU-time guard")
+    if c.get("cache_entry_checked_after_failure", 0) == 0:
+        out.append("no cached session checked after a failure on a resumed "
+                   "connection")
     ex = m["cells"].get("exc", set())
     if not any(x.startswith("alert:") for x in ex):
         out.append("no mutation was answered with an alert")
